@@ -392,10 +392,10 @@ def claims(params, inp, out, lg):
                 if st[S][0] or S not in targets:
                     cl += _rows_eq(lg, [got[S]], [st[S]], f"{tag}:known-or-unlisted-row-unaltered:row{S}")
                 else:
-                    v = got[S][col]
-                    isinf = (_inf(v) == sign)
+                    # a listed unknown row: the property only says it stays unknown and its OTHER bound is not touched (whether an
+                    # infinite bound is stored as such is the package's choice)
                     other = 3 - col
-                    cl.append((f"{tag}:infinite-bound-stored:S={S}", lg.And(got[S][0] is False, isinf, lg.eq(got[S][other], st[S][other]))))
+                    cl.append((f"{tag}:listed-unknown-row-stays-unknown:S={S}", lg.And(got[S][0] is False, lg.eq(got[S][other], st[S][other]))))
             continue
         elif op == "copy":
             cl += _rows_eq(lg, res["copy_equal"], [st[S] for S in range(N)], f"{tag}:equal")
